@@ -11,8 +11,13 @@ import (
 	"os"
 	"os/exec"
 	"reflect"
+	"regexp"
+	"runtime"
+	"runtime/debug"
+	"runtime/pprof"
 	"sort"
 	"strings"
+	"sync"
 	"time"
 
 	"verif/harness/hk"
@@ -38,6 +43,9 @@ type Focus struct {
 	Kind string
 }
 
+// an integer literal Go prints back digit for digit
+var plainIntRe = regexp.MustCompile(`^(0|-?[1-9][0-9]*)$`)
+
 type runner struct {
 	s        Sink
 	f        Focus
@@ -46,6 +54,7 @@ type runner struct {
 	dead     map[Target]bool // servers that stopped answering: nothing more is sent to them
 	hist     []sent          // survive runs: everything handed to the current server, in order
 	record   bool
+	accN     int // answered requests seen (the framing op is emitted for every header-grammar case and for a sample of the rest)
 }
 
 type sent struct {
@@ -108,6 +117,13 @@ func (r *runner) exchange(t Target, c Case, in Input) Observed {
 	if r.record {
 		r.hist = append(r.hist, sent{c, in})
 	}
+	r.accN++
+	if c.Exp.HasID && (c.Exp.ID.K == 's' || (within53(c.Exp.ID.N) && plainIntRe.MatchString(c.Exp.ID.N))) {
+		switch c.Exp.Class {
+		case "result", "iserror", "unknown-method", "bad-params", "not-found", "handler-error":
+			in.WantID = c.Exp.ID.Raw()
+		}
+	}
 	op := t.ModelOp(in) // before the exchange: it carries the state the server is in when the input arrives
 	o := t.Exchange(in)
 	op["c"] = r.f.Comp + "." + op["k"].(string)
@@ -135,7 +151,7 @@ func (r *runner) exchange(t Target, c Case, in Input) Observed {
 				Input: describe(t, c, in), Observed: o.Outcome(), Expected: expectText(c.Exp)})
 		}
 	}
-	if st, ok := t.(*streamable); ok && o.Framing != "" && o.Body != nil {
+	if st, ok := t.(*streamable); ok && o.Framing != "" && o.Body != nil && (in.Hdr["Accept"] != "" || r.accN%16 == 0 || r.f.Kind != "wf") {
 		// a request was answered: the Accept header chose the framing (responder.go createResponder -> ParseAcceptHeader)
 		r.s.Emit(map[string]any{"c": r.f.Comp + ".accept", "postSSE": st.cfg.PostSSE, "hdr": st.headers(in)["Accept"]},
 			map[string]any{"sse": o.Framing == "sse", "panic": false}, true, "accept-framing", "server:"+t.Name())
@@ -226,15 +242,72 @@ func (r *runner) fail(where string, err error) {
 	r.s.Violate(hk.Violation{Fingerprint: "rpc:harness:" + where, What: "harness could not set a server up: " + err.Error(), Input: where})
 }
 
-// runCases hands every case to every target.
+// bufSink keeps what one target's run produced, to be handed on in target order (the output does not depend on scheduling).
+type bufSink struct{ calls []func(Sink) }
+
+func (b *bufSink) Emit(op map[string]any, impl any, nt bool, tags ...string) {
+	b.calls = append(b.calls, func(s Sink) { s.Emit(op, impl, nt, tags...) })
+}
+func (b *bufSink) Count(key string, nt bool, sample any, tags ...string) {
+	b.calls = append(b.calls, func(s Sink) { s.Count(key, nt, sample, tags...) })
+}
+func (b *bufSink) Violate(v hk.Violation) { b.calls = append(b.calls, func(s Sink) { s.Violate(v) }) }
+func (b *bufSink) SetExtra(k string, v any) {
+	b.calls = append(b.calls, func(s Sink) { s.SetExtra(k, v) })
+}
+func (b *bufSink) About(label string, in any) {}
+
+// runCases hands every case to every target. The Streamable HTTP targets run side by side (each on its own server, with
+// its own runner state and output buffer), and so do legacy SSE and stdio: their quiescence checks count the request
+// goroutines of their own kind.
 func (r *runner) runCases(ts []Target, cs []Case) {
-	for _, t := range ts {
+	runOne := func(rr *runner, t Target) {
+		t0 := time.Now()
+		defer func() {
+			if os.Getenv("VERIF_RPC_TIMING") != "" {
+				fmt.Fprintf(os.Stderr, "timing target %s: %v for %d cases\n", t.Name(), time.Since(t0), len(cs))
+			}
+		}()
 		for _, c := range cs {
 			in, ok := deliver(t, c.Body)
 			if !ok {
 				continue
 			}
-			r.exchange(t, c, in)
+			rr.exchange(t, c, in)
+		}
+	}
+	if r.f.Kind != "wf" {
+		for _, t := range ts {
+			runOne(r, t)
+		}
+		return
+	}
+	bufs := make([]*bufSink, len(ts))
+	var wg sync.WaitGroup
+	var serial []int
+	for i, t := range ts {
+		bufs[i] = &bufSink{}
+		if t.Kind() != "streamable" {
+			serial = append(serial, i)
+			continue
+		}
+		wg.Add(1)
+		go func(i int, t Target) {
+			defer wg.Done()
+			runOne(&runner{s: bufs[i], f: r.f, thorough: r.thorough}, t)
+		}(i, t)
+	}
+	for _, i := range serial {
+		wg.Add(1)
+		go func(i int) {
+			defer wg.Done()
+			runOne(&runner{s: bufs[i], f: r.f, thorough: r.thorough}, ts[i])
+		}(i)
+	}
+	wg.Wait()
+	for _, b := range bufs {
+		for _, call := range b.calls {
+			call(r.s)
 		}
 	}
 }
@@ -433,6 +506,13 @@ func (r *runner) headerCases(x *streamable, expOf func(kind, verb, path, ref, bl
 // ---- C03
 
 func (r *runner) runWF() {
+	t0 := time.Now()
+	lap := func(what string) {
+		if os.Getenv("VERIF_RPC_TIMING") != "" {
+			fmt.Fprintf(os.Stderr, "timing wf %s: %v (%d goroutines)\n", what, time.Since(t0), runtime.NumGoroutine())
+		}
+	}
+	defer lap("done")
 	for _, regName := range []string{"full", "bare"} {
 		reg := Registries[regName]
 		ts, err := r.targets(reg, allKinds...)
@@ -446,23 +526,34 @@ func (r *runner) runWF() {
 		}
 	}
 	reg := Registries["small"]
-	ts, err := r.targets(reg, allKinds...)
-	if err != nil {
-		r.fail("setup-small", err)
-		return
-	}
 	cs := LifecycleCases(reg)
+	cs = append(cs, IdEdgeCases(reg)...)
+	cs = append(cs, StringClassCases(reg, r.thorough)...)
 	cs = append(cs, MutationCases(reg, false)...)
 	cs = append(cs, OtherMessages(reg)...)
 	cs = append(cs, GarbageCases(reg, r.rng, r.thorough)...)
 	cs = append(cs, FuzzCases(reg, r.rng, r.fuzzN())...)
-	r.runCases(ts, cs)
-	for _, t := range ts {
-		r.httpCases(t)
-		t.Close()
+	lap("valid cases full+bare")
+	// the Streamable servers first (side by side), then — once they are gone: every census of request goroutines dumps
+	// the stacks of the whole process — legacy SSE and stdio (side by side)
+	for _, group := range [][]string{{"st-json", "st-sse", "stateless", "nosession"}, {"sse", "stdio"}} {
+		ts, err := r.targets(reg, group...)
+		if err != nil {
+			r.fail("setup-small", err)
+			return
+		}
+		r.runCases(ts, cs)
+		lap("small: mutation etc " + group[0])
+		for _, t := range ts {
+			r.httpCases(t)
+			t.Close()
+		}
 	}
+	lap("http cases")
 	r.filtered()
+	lap("filtered")
 	r.longTexts()
+	lap("long texts")
 	r.pipelined(reg)
 	r.s.SetExtra("cases", map[string]any{"mutation+other+garbage": len(cs)})
 }
@@ -572,6 +663,7 @@ func (r *runner) runAlike() {
 		}
 		cs := ValidCases(reg, r.rng, r.thorough)
 		if regName == "small" {
+			cs = append(cs, StringClassCases(reg, r.thorough)...)
 			cs = append(cs, MutationCases(reg, false)...)
 			cs = append(cs, GarbageCases(reg, r.rng, r.thorough)...)
 			cs = append(cs, FuzzCases(reg, r.rng, 4*r.fuzzN())...)
@@ -863,6 +955,8 @@ func (r *runner) surviveCases(reg *Registry) []Case {
 	cs = append(cs, GarbageCases(reg, r.rng, r.thorough)...)
 	cs = append(cs, FuzzCases(reg, r.rng, r.fuzzN())...)
 	cs = append(cs, ValidCases(reg, r.rng, false)...)
+	cs = append(cs, IdEdgeCases(reg)...)
+	cs = append(cs, StringClassCases(reg, r.thorough)...)
 	r.rng.Shuffle(len(cs), func(i, j int) { cs[i], cs[j] = cs[j], cs[i] })
 	return cs
 }
@@ -888,6 +982,7 @@ func (r *runner) runSurvive(only string) {
 			return t2[0], nil
 		})
 		ts[0].Close()
+		r.manyInFlight(k)
 	}
 }
 
@@ -1020,6 +1115,13 @@ func Main(f Focus, rule string) {
 		return
 	}
 	hk.Main(&hk.Component{Name: f.Comp, Rule: rule, Run: func(c *hk.Ctx) {
+		debug.SetGCPercent(400) // the runs allocate a lot of short-lived JSON; collect less often
+		if pf := os.Getenv("VERIF_RPC_PROF"); pf != "" {
+			if f, err := os.Create(pf); err == nil {
+				pprof.StartCPUProfile(f)
+				defer pprof.StopCPUProfile()
+			}
+		}
 		r := &runner{s: ctxSink{c}, f: f, rng: c.Rng, thorough: c.Thorough()}
 		switch f.Kind {
 		case "wf":
